@@ -80,6 +80,20 @@ class M(Model):
         visited = self._visited(s) if visited is None else visited
         return [all(x in visited[a] for x in self._todo(s, a)) for a in range(self.A)]
 
+    # ------------------------------------------------------------------------------ C11
+    def early_end_explained(self, states, actions):
+        """"The episode terminates when all agents have connected their nodes or the time limit is reached":
+        judged from the agents' positions over the whole history (`positions` = "index of the last visited node"),
+        so it does not depend on how much of the route the `connected_nodes` buffer kept."""
+        seen = [set() for _ in range(self.A)]
+        for s in states:
+            pos = np.asarray(s.positions, np.int64)
+            for a in range(self.A):
+                if 0 <= int(pos[a]) < self.N:
+                    seen[a].add(int(pos[a]))
+        last = states[-1]
+        return all(all(x in seen[a] for x in self._todo(last, a)) for a in range(self.A))
+
     # ------------------------------------------------------------------------------ C04
     def legal(self, s, ignore_finished=False):
         adj = self._adj(s)
